@@ -292,6 +292,39 @@ static void construction_consistency() {
 	}
 }
 
+// ------------------------------------------------------------------ insertions whose value constructor fails (throws)
+// A failed insertion must leave the map as it was: the key absent, every other key found, iteration unchanged. (What becomes of
+// the nodes allocated for the failed insertion is not looked at here.)
+struct CtorFailed {};
+struct ThrowVal { uint64_t key; bool ok; ThrowVal(uint64_t k, bool fail) : key(k), ok(true) { if(fail) throw CtorFailed{}; } };
+static void throwing_constructors() {
+	if(!want_mode("throwing-ctor") || !g_model_armed) return;
+	Rng r(derive_seed("throwing-ctor"));
+	for(uint64_t c = opt.shard; c < scaled(400, 8000); c += opt.nshards) {
+		begin_case("throwing-ctor", c);
+		g_bad = false; g_trace.clear();
+		guarded(g_prop.c_str(), [&] {
+			frg::rcu_radixtree<ThrowVal, PlainAlloc> tree{PlainAlloc{}};
+			std::map<uint64_t, ThrowVal *> model;
+			uint64_t base = r.next();
+			for(int i = 0; i < 30 && !g_bad; i++) {
+				uint64_t k = r.chance(1, 3) ? base + r.below(40) : (r.chance(1, 2) ? base ^ ((uint64_t)(1 + r.below(15)) << (4 * r.below(16))) : r.next());
+				if(model.count(k)) continue;
+				bool fails = r.chance(1, 3);
+				g_trace += strf("%s(%016llx) ", fails ? "insert-ctor-throws" : "insert", (unsigned long long)k);
+				try { ThrowVal *p = r.chance(1, 2) ? tree.insert(k, k, fails) : tree.find_or_insert(k, k, fails).template get<0>(); model[k] = p; if(fails) fail("ctor", "an insertion whose constructor threw returned normally"); }
+				catch(const CtorFailed &) { if(!fails) fail("ctor", "unexpected exception"); count("failed_insertions"); }
+				if(tree.find(k) != (model.count(k) ? model[k] : nullptr)) fail("find-after-failed-insert", strf("find(%016llx) after %s", (unsigned long long)k, fails ? "a failed insertion returns a value" : "an insertion does not return the inserted value"));
+				for(auto &kv : model) if(tree.find(kv.first) != kv.second) { fail("find-present-null", strf("find(%016llx) no longer returns the inserted value", (unsigned long long)kv.first)); break; }
+				auto mi = model.begin(); size_t n = 0;
+				for(auto it = tree.begin(); it != tree.end() && !g_bad; ++it, ++n) { if(mi == model.end() || &*it != mi->second) { fail("iter-extra", strf("iteration position %zu does not yield the %zu present keys in order (after a failed insertion the tree still contains traces of it?)", n, model.size())); break; } ++mi; }
+				if(!g_bad && mi != model.end()) fail("iter-missing", strf("iteration stops after %zu of %zu present keys", n, model.size()));
+			}
+		});
+		note_distinct(mix(hash_str("throwing-ctor"), c)); count("throwing_constructor_cases");
+	}
+}
+
 int main(int argc, char **argv) {
 	parse_args(argc, argv, "c09_radix");
 	if(opt.replay_arg.find("prop=C16") != std::string::npos) g_prop = "C16";
@@ -307,6 +340,7 @@ int main(int argc, char **argv) {
 	random_histories("rand:small", scaled(300, 10000), 120, 40);
 	random_histories("rand:large", scaled(8, 300), t ? 20000 : 4000, 0);
 	construction_consistency();
+	throwing_constructors();
 	sample("exh:4: keys {B, B^8<<60 (differs at the most significant nibble), B+1, 0} inserted in every order (insert / find_or_insert alternating), all finds + iteration after each step, then erase/re-insert");
 	sample("rand:large: 4000 (thorough 20000) ops of insert/find_or_insert/find/erase/re-insert over keys from {adversarial pool, random, short, neighbours differing in one nibble}");
 	return finish();
